@@ -1881,11 +1881,27 @@ func (s *shutRun) judgeWire(k int, v *shutView, ccs []shutCC, tc *TapConn) {
 					got = true
 				}
 			}
-			if !got {
+			// A delayed client Initial that reaches the server after the connection is gone starts a new server connection
+			// under the same destination connection ID (the server cannot know it is stale): the late packets are then
+			// routed to that connection, legitimately.
+			reborn := false
+			if k == 1 {
+				for _, rec := range s.w.Log[0] {
+					for _, at := range rec.Delivered {
+						if at > v.doneNS && len(rec.Pkts) > 0 && rec.Pkts[0].Type == TapInitial {
+							reborn = true
+						}
+					}
+				}
+			}
+			if reborn {
+				s.res.Probe("late-packets-routed-to-a-connection-created-by-a-delayed-initial")
+			} else if !got {
 				s.report("(5) late packet for an ended connection is not treated as belonging to an unknown connection (no stateless reset)", "side %d: ended %v, %d late packets from %v on", k, time.Duration(v.doneNS), s.sc.ProbesLate, time.Duration(sd.lateNS))
 				return
+			} else {
+				s.res.Probe("late-packets-answered-by-stateless-reset")
 			}
-			s.res.Probe("late-packets-answered-by-stateless-reset")
 		}
 	}
 	if !local {
